@@ -36,6 +36,7 @@ type VerifPassivationEntry struct {
 	TimeoutNano  int64
 	Baseline     int64
 	MaxMessages  int
+	HeapCopies   int // how often the entry occurs in the deadline heap (must be 1 when InHeap, else 0)
 }
 
 func verifProjectEntry(m *passivationManager, key string, locked bool) VerifPassivationEntry {
@@ -61,6 +62,11 @@ func verifProjectEntry(m *passivationManager, key string, locked bool) VerifPass
 	out.MaxMessages = entry.maxMessages
 	if !entry.deadline.IsZero() {
 		out.DeadlineNano = entry.deadline.UnixNano()
+	}
+	for _, e := range m.queue {
+		if e == entry {
+			out.HeapCopies++
+		}
 	}
 	return out
 }
